@@ -39,6 +39,8 @@ def run(ctx):
     try:
         from . import derive_rules
         derived = derive_rules.c07(ctx)
+        if ctx.tier == 'thorough':
+            derived += derive_rules.on_random(ctx, derive_rules.c07)
     except ImportError:
         ctx.notes.append('derive corpus not built')
     return ('Scalar length tables equal encoder tables on every cell; item-level length summaries of %d built-in impls equal their emission summaries; '
